@@ -109,6 +109,42 @@ class C20(fw.Prop):
                     out += f" written-back-as:{g.to_bytes().hex()}"
                 return out
             return fw.Case("echo in-get", impl, "prop", d, tags)
+        if op == "in_apdus":
+            # the invoke-id-and-priority byte where it lives in every other APDU kind, decoded through the tag-dispatching
+            # decoder (bytes written by hand) and written back
+            v = d["v"]
+
+            def impl():
+                from dlms_cosem.connection import XDlmsApduFactory
+                from dlms_cosem.protocol.xdlms.invoke_id_and_priority import InvokeIdAndPriority as I
+                want = I.from_bytes(bytes([v]))
+                ob = bytes([0x00, 0x08, 0, 0, 1, 0, 0, 255])
+                samples = {"get-next": bytes([0xC0, 0x02, v, 0, 0, 0, 2]),
+                           "get-response-normal": bytes([0xC4, 0x01, v, 0x00, 0x11, 0x05]),
+                           "get-response-error": bytes([0xC4, 0x01, v, 0x01, 0x03]),
+                           "get-response-block": bytes([0xC4, 0x02, v, 0x00, 0, 0, 0, 1, 0x00, 0x02, 0xAA, 0xBB]),
+                           "get-response-last-block": bytes([0xC4, 0x02, v, 0x01, 0, 0, 0, 3, 0x00, 0x02, 0xAA, 0xBB]),
+                           "get-response-last-block-error": bytes([0xC4, 0x02, v, 0x01, 0, 0, 0, 3, 0x01, 0x02]),
+                           "set-request": bytes([0xC1, 0x01, v]) + ob + bytes([0x02, 0x00, 0x11, 0x05]),
+                           "set-response": bytes([0xC5, 0x01, v, 0x00]),
+                           "action-request": bytes([0xC3, 0x01, v]) + ob + bytes([0x01, 0x00]),
+                           "action-response": bytes([0xC7, 0x01, v, 0x00, 0x00]),
+                           "action-response-data": bytes([0xC7, 0x01, v, 0x00, 0x01, 0x00, 0x11, 0x05])}
+                out = "ok in-apdus"
+                for name, raw in samples.items():
+                    try:
+                        a = XDlmsApduFactory.apdu_from_bytes(raw)
+                        got = a.invoke_id_and_priority
+                        if (got.invoke_id, got.confirmed, got.high_priority) != (want.invoke_id, want.confirmed, want.high_priority):
+                            out += f" invoke-byte-{v:#04x}-in-{name}-decodes-to:({got.invoke_id},{got.confirmed},{got.high_priority})"
+                        elif bytes(a.to_bytes())[2] != want.to_bytes()[0]:
+                            out += f" invoke-byte-{v:#04x}-in-{name}-written-back-as:{bytes(a.to_bytes())[2]:#04x}"
+                    except fw._Timeout:
+                        raise
+                    except Exception as e:  # noqa
+                        out += f" {name}-refused:{type(e).__name__}"
+                return out
+            return fw.Case("echo in-apdus", impl, "prop", d, tags)
         if op == "conf_enc":
             mask = d["mask"]
 
@@ -466,6 +502,8 @@ class C20(fw.Prop):
                 for fin in (0, 1):
                     for seg in (0, 1):
                         yield mk({"op": "frame_fields", "ssn": ssn, "rsn": rsn, "fin": fin, "seg": seg, "n": (ssn * 8 + rsn) % 50})
+        for v in (range(256) if deep else [0x00, 0x01, 0x0F, 0x41, 0x85, 0xC1, 0xCF, 0x80, 0x40, 0xFF, 0x30]):
+            yield mk({"op": "in_apdus", "v": v})
         for kind in ("snrm", "disc", "ua", "ui", "rr", "i"):
             for seg in (0, 1):
                 for fin in (0, 1):
